@@ -100,4 +100,32 @@ CONFIG = {
         "quick": {"checks": 3000, "shards": 8},
         "thorough": {"checks": 80000, "shards": 16, "timeout": 7200},
     },
+    "C05": {
+        "rule": "one rapid property per base strategy (every AllStrategies registry entry, the unregistered Trix/Envelope strategies, every With-constructor through "
+                "generated periods 1-9 and thresholds; the plain constructor in ~8% of draws) plus one over generated decorator/compound expressions of depth <= 2 "
+                "(Inverse, NoLoss, StopLoss, And, Or, Majority, Split, MACD-RSI over base strategies); snapshot count n biased to {0, 1, w-1, w, w+1} and [0, 3w+5]. "
+                "Oracle: every action in {Sell, Hold, Buy}; n >= w: exactly n actions and the first w are Hold; n < w: only Holds and at least n. w per strategy from its "
+                "documented indicator warm-up (+1 for the cross-over rules of Apo and Qstick); expressions: max over And children, min otherwise. "
+                "Non-trivial: n >= w with a non-Hold action, or n within 1 of w. Distinct = (strategy, configuration, n, closes).",
+        "technique": "property-based testing (rapid) of the action-count / warm-up law over generated strategies, configurations, decorator/compound expressions and lengths",
+        "level_text": "Every strategy is run on generated snapshot counts concentrated around its warm-up and its action stream is checked for length, alphabet and leading Holds; decorated and compound expressions are generated as trees. Sampling; small periods make off-by-one shifts visible at every length.",
+        "level_note": "Warm-ups are transcribed per strategy in sreg/entries.go from the indicator warm-up each doc comment implies. Strategies with a recorded one-day lag (Alligator, Smma) are excluded from compounds by construction (counted).",
+        "assumptions": ["TripleRsi: SMA period > RSI period, as its comment presupposes; Dema strategy: the second DEMA does not warm up before the first"],
+        "gomaxprocs": [1],
+        "quick": {"checks": 200, "shards": 16},
+        "thorough": {"checks": 4000, "shards": 16, "timeout": 7200},
+    },
+    "C06": {
+        "rule": "one rapid property per base strategy: generated periods/thresholds (plain constructor in 5% of draws), n in [w, w+70], OHLCV of a drawn class with the five fields "
+                "varying independently. Oracle: the documented decision rule (transcribed in sreg/entries.go with its source sentence) applied position by position to the "
+                "library's own indicator computed by the harness from the documented price fields, aligned by the indicator's warm-up; positions where compared quantities "
+                "are equal within 1e-9 or undefined are exempt. Non-trivial: >= 1 Buy and >= 1 Sell expected. Distinct = (strategy, configuration, closes, highs, volumes).",
+        "technique": "property-based differential testing (rapid): strategy output vs documented rule over the library's own indicator on independently varying OHLCV fields",
+        "level_text": "The action stream of each base strategy is compared with its documented rule evaluated by the harness on the real indicator fed from the documented fields; because the fields vary independently a wrong field, an inverted comparison or a recommendation attached to the wrong day shows up as a contradiction. Sampling.",
+        "level_note": "Where the code is merely stricter than a vague comment (MACD zero-line guard) or the type comment gives no rule (Alligator, AwesomeOscillator, Rsi, StochasticRsi) the code's rule is the oracle and is not claimed. Indicator formula defects are C01's, not reported here.",
+        "assumptions": ["rules are transcriptions of the strategy doc comments"],
+        "gomaxprocs": [1],
+        "quick": {"checks": 150, "shards": 16},
+        "thorough": {"checks": 3000, "shards": 16, "timeout": 7200},
+    },
 }
